@@ -84,7 +84,7 @@ struct Sink {
   LogWriter log;
   nop::BufferWriter bw; nop::PedanticBufferWriter pw; nop::ConstexprBufferWriter cw;
   std::unique_ptr<SStreamWriter> sw; std::unique_ptr<nop::FdWriter> fw; int fd = -1;  // fd: our own descriptor on the medium
-  bool use_pipe = false; int pipe_rd = -1;
+  bool use_pipe = false; int pipe_rd = -1; std::vector<uint8_t> pipe_acc;   // bytes already drained from the pipe
   nop::BoundedWriter<nop::PedanticBufferWriter> bpw; nop::BoundedWriter<nop::BufferWriter> bbw; nop::BoundedWriter<LogWriter> blw;
   nop::BoundedWriter<SStreamWriter> bsw; nop::BoundedWriter<nop::ConstexprBufferWriter> bcw; nop::BoundedWriter<nop::FdWriter> bfw;
 
@@ -104,6 +104,7 @@ struct Sink {
       case W_STREAM: sw.reset(new SStreamWriter()); break;
       case W_FD: {
         fw.reset(); if (fd >= 0) ::close(fd); if (pipe_rd >= 0) { ::close(pipe_rd); pipe_rd = -1; }
+        pipe_acc.clear();
         if (pipe) { int fds[2]; if (::pipe(fds) != 0) abort(); pipe_rd = fds[0]; fd = fds[1]; }
         else fd = memfd_create("vfw", 0);
         fw.reset(new nop::FdWriter(::dup(fd)));
@@ -125,7 +126,7 @@ struct Sink {
       case W_LOG: return log.data.size();
       case W_BUFFER: return bw.size(); case W_PEDANTIC: return pw.size(); case W_CONSTEXPR: return cw.size();
       case W_STREAM: return (size_t)sw->stream().str().size();
-      case W_FD: return use_pipe ? pipe_pending(pipe_rd) : (size_t)::lseek(fd, 0, SEEK_CUR);
+      case W_FD: return use_pipe ? pipe_acc.size() + pipe_pending(pipe_rd) : (size_t)::lseek(fd, 0, SEEK_CUR);
     }
     return 0;
   }
@@ -136,7 +137,7 @@ struct Sink {
       case W_STREAM: { std::string s = sw->stream().str(); return std::vector<uint8_t>(s.begin(), s.end()); }
       case W_FD: {
         std::vector<uint8_t> v;
-        if (use_pipe) { size_t n = pipe_pending(pipe_rd); v.resize(n); size_t off = 0; while (off < n) { ssize_t r = ::read(pipe_rd, v.data() + off, n - off); if (r <= 0) break; off += (size_t)r; } v.resize(off); }
+        if (use_pipe) { size_t n = pipe_pending(pipe_rd); size_t base = pipe_acc.size(); pipe_acc.resize(base + n); size_t off = 0; while (off < n) { ssize_t r = ::read(pipe_rd, pipe_acc.data() + base + off, n - off); if (r <= 0) break; off += (size_t)r; } pipe_acc.resize(base + off); v = pipe_acc; }
         else { off_t n = ::lseek(fd, 0, SEEK_CUR); v.resize((size_t)n); if (n) { ssize_t r = ::pread(fd, v.data(), (size_t)n, 0); (void)r; } }
         return v;
       }
